@@ -30,6 +30,13 @@ def body_of(stm):
     return list(stm.body) if stm.ast_type in (ASTType.Rule, ASTType.Minimize) else []
 
 
+def variables_of_body(stm):
+    out = []
+    for l in body_of(stm):
+        out.extend(variables(l))
+    return out
+
+
 def is_eq_lit(lit):
     """X = t or t = X (or not X != t) with X a variable; returns (var name, other term) candidates"""
     out = []
@@ -82,12 +89,67 @@ def falsified(text, flags, rec=None):
                 keys.add("Hyp_no_pool")
             if sym.ast_type == ASTType.UnaryOperation:
                 keys.add("Hyp_no_classical_negation")
-        # D7: template variables in a rule with a min/max aggregate
-        if "minmax_chains" in on or "sum_chains" in on or "symmetry" in on:
-            if TEMPLATE_VARS & set(variables(stm)):
+        baggs = [n for n in walk(stm) if n.ast_type == ASTType.BodyAggregate]
+        minmax = [a for a in baggs if a.function in (AggregateFunction.Min, AggregateFunction.Max)]
+        # D7: a rule with a translated #min/#max aggregate uses a template variable name
+        if "minmax_chains" in on and minmax:
+            if any(v in TEMPLATE_VARS or re.fullmatch(r"G\d+", v) for v in variables(stm)):
                 keys.add("Hyp_template_vars")
+        # D12 / C12a: a negated #min/#max literal
+        if "minmax_chains" in on:
+            for lit in lits:
+                if lit.sign != Sign.NoSign and lit.atom.ast_type == ASTType.BodyAggregate and \
+                        lit.atom.function in (AggregateFunction.Min, AggregateFunction.Max):
+                    keys.add("Hyp_no_neg_minmax")
+        # D13: an objective whose body assigns aggregate values, with body variables missing from the tuple
+        if stm.ast_type == ASTType.Minimize and ("inline" in on or "math" in on):
+            assigned = [l for l in stm.body if l.ast_type == ASTType.Literal and l.atom.ast_type == ASTType.BodyAggregate]
+            if assigned:
+                tuple_vars = set(variables(stm.weight)) | set(v for t in stm.terms for v in variables(t))
+                body_vars = set()
+                for l in stm.body:
+                    if l.ast_type == ASTType.Literal and l.atom.ast_type == ASTType.SymbolicAtom:
+                        body_vars |= set(variables(l))
+                if (body_vars - tuple_vars - {"_"}) or stm.weight.ast_type != ASTType.Variable:
+                    keys.add("Hyp_tuple_covers")
+        # D16 / C13b: an anonymous argument in an atom inside a #sum element or an objective body (group of a chain)
+        if "sum_chains" in on:
+            places = []
+            for a in baggs:
+                for e in a.elements:
+                    places.extend(e.condition)
+            if stm.ast_type == ASTType.Minimize:
+                places.extend(stm.body)
+            for l in places:
+                if l.ast_type == ASTType.Literal and l.atom.ast_type == ASTType.SymbolicAtom and "_" in variables(l):
+                    keys.add("Hyp_no_anon_group")
+        # C11b: symmetry next to an aggregate that mentions a compared variable
+        if "symmetry" in on and baggs:
+            cmpvars = set()
+            for l in stm.body if hasattr(stm, "body") else []:
+                if l.ast_type == ASTType.Literal and l.atom.ast_type == ASTType.Comparison:
+                    cmpvars |= set(variables(l))
+            aggvars = set(v for a in baggs for v in variables(a))
+            if cmpvars & aggvars:
+                keys.add("Hyp_sym_vars_outside_agg")
+        # C05a: boolean constants as elements of an old-style aggregate
+        for n in walk(stm):
+            if n.ast_type == ASTType.Aggregate and stm.ast_type in (ASTType.Rule, ASTType.Minimize) and \
+                    not (stm.ast_type == ASTType.Rule and n is stm.head):
+                bools = [e for e in n.elements if e.literal.atom.ast_type == ASTType.BooleanConstant]
+                if len(bools) > 1:
+                    keys.add("Hyp_no_bool_oldagg")
+                for e in n.elements:
+                    if e.literal.sign == Sign.DoubleNegation and "_" in variables(e.literal):
+                        keys.add("Hyp_no_anon_dneg_oldagg")
         if stm.ast_type == ASTType.Rule:
             h = stm.head
+            # D17: a bounded head aggregate whose element tuple does not determine the element atom
+            if "sum_chains" in on and h.ast_type == ASTType.HeadAggregate:
+                for e in h.elements:
+                    tv = set(v for t in e.terms for v in variables(t))
+                    if set(variables(e.condition.literal)) - tv - set(variables_of_body(stm)):
+                        keys.add("Hyp_tuple_injective")
             # D24: several head elements derive the same predicate
             if h.ast_type in (ASTType.Aggregate, ASTType.Disjunction, ASTType.HeadAggregate):
                 sigs = []
@@ -117,6 +179,16 @@ def falsified(text, flags, rec=None):
                 lines.setdefault(stm.location.begin.line, set()).add(str(stm))
     if any(len(v) > 1 for v in lines.values()):
         keys.add("Hyp_one_agg_per_line")
+    # D1 (instance dependent): the source derives a #inf/#sup result that the translation loses
+    if rec is not None and "minmax_chains" in on:
+        blob = str(rec.get("source_models")) + str(rec.get("result_models"))
+        if "#inf" in blob or "#sup" in blob:
+            keys.add("Hyp_nonempty_dom")
+    # D6: a generated domain rule copies a negative literal over a non-static predicate
+    if rec is not None and rec.get("result"):
+        for line in rec["result"].split("\n"):
+            if line.startswith("__dom_") and ":-" in line and "not __dom_" in line.split(":-", 1)[1]:
+                keys.add("Hyp_dom_positive")
     # D19 (evaluated operationally): ngo's own normal form (all traits off) of a safe program is rejected by clingo
     if rec is not None and rec.get("status") == "broken-result":
         try:
